@@ -151,6 +151,11 @@ static bool build_case(uint64_t run_seed, Case &c) {
             Bytes var; VariantStats vs; Rng rv(r.next());
             if(ber_variant(in.enc[SY_DER], rv, var, vs, &hints) && var.size() <= 8192) in.enc[SY_BER] = var;
         }
+        if(in.enc.count(SY_XER) && r.chance(1, 2)) {     // XER as a person or another tool would write it: blanks, comments, a prolog, attributes, character references
+            Bytes var; XerVariantStats xs; Rng rv(r.next());
+            xer_variant(in.enc[SY_XER], rv, var, xs, !kind_constructed(kind_of(in.td)));
+            if(var.size() <= 8192) { in.enc[SY_XER] = var; G.add("c19.fired.xer_markup_variant"); }
+        }
         free_struct(in.td, st);
         if(!in.enc.empty() && r.chance(1, 3)) {
             // the same encodings after a corrupting transport: error paths of the decoders are library code too
